@@ -367,6 +367,7 @@ impl<'a> JsonReader<'a> {
 	fn object(&mut self) -> Result<V, String> {
 		self.pos += 1;
 		let mut m: Vec<(V, V)> = vec![];
+		let mut keys: std::collections::HashSet<String> = std::collections::HashSet::new();
 		self.skip_ws();
 		if self.pos < self.b.len() && self.b[self.pos] == b'}' {
 			self.pos += 1;
@@ -384,7 +385,7 @@ impl<'a> JsonReader<'a> {
 			}
 			self.pos += 1;
 			let v = self.value()?;
-			if m.iter().any(|(k2, _)| *k2 == V::Str(k.clone())) {
+			if !keys.insert(k.clone()) {
 				self.dup_keys = true;
 			}
 			m.push((V::Str(k), v));
